@@ -5,6 +5,7 @@ import (
 	"go/constant"
 	"go/token"
 	"go/types"
+	"sort"
 	"strings"
 
 	"golang.org/x/tools/go/ssa"
@@ -2119,4 +2120,945 @@ func ruleNarrowInclusiveLoop(r *Run) {
 		}
 	}
 	r.check(loops >= 3, "repo:narrow-counters", fmt.Sprintf("%d narrow unsigned loop counters, %d with an inclusive bound", loops, n), "too few: rule needs review", "-")
+}
+
+// ---------------------------------------------------------------------------------------------
+// Round f, second batch (C13)
+
+func init() {
+	register(ruleDef{ID: "R13.24", Prop: "C13", Tier: "quick", Floor: 1,
+		Title: "the by-position table holds every new element: in the annotation package, where a loop over the posted elements fills a local map that a later comma-ok lookup consults (which stored elements were replaced?), the store into the map lies on every path through the loop body — an element skipped there is taken for not replaced, and the tags it lost keep listing it",
+		Fn:    rulePositionTableComplete})
+	register(ruleDef{ID: "R13.25", Prop: "C13", Tier: "quick", Floor: 1,
+		Title: "the block view of a move is committed before the partner pass re-reads it: in MoveElement every path to the call that moves the references held by partner elements (moveElementInRelationships, which reads the partners' blocks from the store) passes a Commit of the batch that holds the moved element's blocks",
+		Fn:    ruleMoveCommitsBeforePartners})
+	register(ruleDef{ID: "R13.26", Prop: "C13", Tier: "quick", Floor: 2,
+		Title: "a move is reported with the position it left and the position it took: in annotation functions that take the two positions of a move, every element appended to the Del list of the delta sent to subscribers carries the first position (from), every element appended to Add the second — a subscriber that filters by position (labelsz with a ROI) counts by them",
+		Fn:    ruleMoveDeltaPositions})
+}
+
+func rulePositionTableComplete(r *Run) {
+	w := r.W
+	n := 0
+	for _, f := range w.RepoFuncs {
+		if relPkg(pkgPathOf(f)) != "datatype/annotation" || len(f.Blocks) == 0 || isTestFunc(w, f) {
+			continue
+		}
+		k := 0
+		for _, b := range f.Blocks {
+			for _, in := range b.Instrs {
+				mu, ok := in.(*ssa.MapUpdate)
+				if !ok {
+					continue
+				}
+				mk, ok := mu.Map.(*ssa.MakeMap)
+				if !ok {
+					continue
+				}
+				h, set, _ := innermostLoop(f, b)
+				if set == nil {
+					continue
+				}
+				// the loop ranges over a parameter (the posted elements)
+				overParam := false
+				for _, x := range h.Instrs {
+					if nx, ok := x.(*ssa.Next); ok {
+						_ = nx
+					}
+				}
+				for blk := range set {
+					for _, x := range blk.Instrs {
+						if ia, ok := x.(*ssa.IndexAddr); ok {
+							if _, isP := ia.X.(*ssa.Parameter); isP {
+								overParam = true
+							}
+						}
+					}
+				}
+				if !overParam {
+					continue
+				}
+				// consulted later with a comma-ok lookup outside this loop
+				consulted := false
+				for _, ref := range *mk.Referrers() {
+					if lk, ok := ref.(*ssa.Lookup); ok && lk.CommaOk && !set[lk.Block()] {
+						consulted = true
+					}
+				}
+				if !consulted {
+					continue
+				}
+				n++
+				k++
+				inLoop := func(blk *ssa.BasicBlock, i int) bool { return set[blk.Succs[i]] }
+				var from ssa.Instruction
+				for _, x := range h.Instrs {
+					if _, isPhi := x.(*ssa.Phi); !isPhi {
+						from = x
+						break
+					}
+				}
+				p := findPath(f, from, func(x ssa.Instruction) bool { return x == ssa.Instruction(mu) }, func(x ssa.Instruction) bool { return x == from }, inLoop)
+				r.check(p == nil, fmt.Sprintf("%s:position-table#%d:filled-for-every-element", fname(f), k), "every pass through the loop body stores the element into the table",
+					"the loop can go on to the next posted element without entering the current one into the by-position table: a stored element it replaces is then not compared with it, and the tags the replacement dropped keep listing the element", w.pos(mu.Pos()), w.renderPath(p)...)
+			}
+		}
+	}
+	r.check(n >= 1, "annotation:position-tables", fmt.Sprintf("%d", n), "no by-position table found: rule needs review", "-")
+}
+
+func ruleMoveCommitsBeforePartners(r *Run) {
+	w := r.W
+	f := w.method("datatype/annotation", "Data", "MoveElement")
+	if f == nil {
+		r.undecided("annotation.Data.MoveElement", "anchor not found")
+		return
+	}
+	var partners ssa.Instruction
+	for _, c := range calls(f) {
+		if callee := staticCallee(c); callee != nil && callee.Name() == "moveElementInRelationships" {
+			partners = c
+		}
+	}
+	if !r.check(partners != nil, "MoveElement:partner-pass", "found", "the call of moveElementInRelationships was not found: rule needs review", w.fpos(f)) {
+		return
+	}
+	isCommit := func(x ssa.Instruction) bool {
+		c, ok := x.(ssa.CallInstruction)
+		return ok && c.Common().IsInvoke() && c.Common().Method.Name() == "Commit"
+	}
+	p := findPath(f, nil, isCommit, func(x ssa.Instruction) bool { return x == partners }, nil)
+	r.check(p == nil, "MoveElement:blocks-committed-before-partner-pass", "every path to the partner pass commits the block batch first",
+		"the partner pass can start with the moved element's blocks still queued in the batch: it re-reads the destination block from the store without the moved element and queues it again, so the later Put overrides the earlier — an element moved into the block of a related partner disappears from the block view while tags and partners still point at it", w.pos(partners.Pos()), w.renderPath(p)...)
+}
+
+func ruleMoveDeltaPositions(r *Run) {
+	w := r.W
+	n := 0
+	for _, f := range w.RepoFuncs {
+		if relPkg(pkgPathOf(f)) != "datatype/annotation" || len(f.Blocks) == 0 || isTestFunc(w, f) {
+			continue
+		}
+		var pts []*ssa.Parameter
+		for _, p := range f.Params {
+			if typeIs(p.Type(), "dvid", "Point3d") {
+				pts = append(pts, p)
+			}
+		}
+		if len(pts) != 2 {
+			continue
+		}
+		k := 0
+		for _, c := range calls(f) {
+			cv, ok := c.(*ssa.Call)
+			if !ok {
+				continue
+			}
+			bi, ok := cv.Call.Value.(*ssa.Builtin)
+			if !ok || bi.Name() != "append" || len(cv.Call.Args) != 2 {
+				continue
+			}
+			// which list
+			list := ""
+			for _, ref := range *cv.Referrers() {
+				if st, ok := ref.(*ssa.Store); ok {
+					if fa, ok := st.Addr.(*ssa.FieldAddr); ok {
+						if nm, _, _ := fieldName(fa); nm == "Del" || nm == "Add" {
+							list = nm
+						}
+					}
+				}
+			}
+			if list == "" {
+				continue
+			}
+			// the appended element's Pos
+			var posVals []ssa.Value
+			sl, ok := cv.Call.Args[1].(*ssa.Slice)
+			if !ok {
+				continue
+			}
+			arr, ok := sl.X.(*ssa.Alloc)
+			if !ok {
+				continue
+			}
+			for _, ref := range *arr.Referrers() {
+				ia, ok := ref.(*ssa.IndexAddr)
+				if !ok {
+					continue
+				}
+				for _, ref2 := range *ia.Referrers() {
+					switch x := ref2.(type) {
+					case *ssa.FieldAddr:
+						if nm, _, _ := fieldName(x); nm == "Pos" {
+							for _, ref3 := range *x.Referrers() {
+								if st, ok := ref3.(*ssa.Store); ok && st.Addr == ssa.Value(x) {
+									posVals = append(posVals, st.Val)
+								}
+							}
+						}
+					case *ssa.Store:
+						if x.Addr != ssa.Value(ia) {
+							continue
+						}
+						// whole struct stored: a load of a local ElementPos
+						if u, ok := x.Val.(*ssa.UnOp); ok {
+							if al, ok := u.X.(*ssa.Alloc); ok {
+								for _, ref3 := range *al.Referrers() {
+									if fa, ok := ref3.(*ssa.FieldAddr); ok {
+										if nm, _, _ := fieldName(fa); nm == "Pos" {
+											for _, ref4 := range *fa.Referrers() {
+												if st, ok := ref4.(*ssa.Store); ok && st.Addr == ssa.Value(fa) {
+													posVals = append(posVals, st.Val)
+												}
+											}
+										}
+									}
+								}
+							}
+						}
+					}
+				}
+			}
+			if len(posVals) == 0 {
+				continue
+			}
+			n++
+			k++
+			want := pts[0]
+			other := pts[1]
+			if list == "Add" {
+				want, other = pts[1], pts[0]
+			}
+			good := true
+			for _, pv := range posVals {
+				v := stripConv(pv)
+				if v == ssa.Value(other) {
+					good = false
+				}
+				if list == "Del" && v != ssa.Value(want) {
+					good = false
+				}
+			}
+			r.check(good, fmt.Sprintf("%s:delta.%s#%d:position", fname(f), list, k), "the entry carries the "+want.Name()+" position",
+				"an entry appended to delta."+list+" does not carry the position "+want.Name()+": a subscriber that filters by position (labelsz restricted to a ROI) subtracts or adds the element on the wrong side of its boundary, and its counts drift from the label view", w.pos(cv.Pos()))
+		}
+	}
+	r.check(n >= 2, "annotation:move-delta-entries", fmt.Sprintf("%d", n), "fewer entries than expected: rule needs review", "-")
+}
+
+// ---------------------------------------------------------------------------------------------
+// R16.25 — both query paths match against the query they were given
+// R5.19 / R1.20 — every stored version of a key reaches the resolver
+
+func init() {
+	register(ruleDef{ID: "R16.25", Prop: "C16", Tier: "quick", Floor: 2,
+		Title: "both query paths match against the query they were given: in neuronjson every call of queryMatch passes the ListQueryJSON parameter of the enclosing query function itself (directly or captured by the closure), never a list computed from it — the in-memory head and the store answer the same query",
+		Fn:    ruleQueryListUnfiltered})
+	reg := func(id, prop string) {
+		register(ruleDef{ID: id, Prop: prop, Tier: "quick", Floor: 1,
+			Title: "every stored version of a key reaches the resolver: in an ordered back end's versioned scan, a key-value read from the iterator is appended to the pending group on every path that goes on to the next key — also tombstones and also in keys-only mode (a deletion left out of the group lets the ancestor's value answer the listing while the point read finds the key deleted)",
+			Fn:    ruleScanKeepsEveryVersion})
+	}
+	reg("R5.19", "C05")
+	reg("R1.20", "C01")
+}
+
+func ruleQueryListUnfiltered(r *Run) {
+	w := r.W
+	n := 0
+	for _, f := range w.RepoFuncs {
+		if relPkg(pkgPathOf(f)) != "datatype/neuronjson" || len(f.Blocks) == 0 || isTestFunc(w, f) {
+			continue
+		}
+		k := 0
+		for _, c := range calls(f) {
+			callee := staticCallee(c)
+			if callee == nil || callee.Name() != "queryMatch" {
+				continue
+			}
+			n++
+			k++
+			a := stripConv(c.Common().Args[0])
+			if u, ok := a.(*ssa.UnOp); ok && u.Op == token.MUL {
+				if fv, ok := u.X.(*ssa.FreeVar); ok {
+					a = fv
+				}
+			}
+			good := false
+			switch x := a.(type) {
+			case *ssa.Parameter:
+				good = typeIs(x.Type(), "datatype/neuronjson", "ListQueryJSON")
+			case *ssa.FreeVar:
+				// bound to the parent's parameter
+				if p := f.Parent(); p != nil {
+					for _, b := range p.Blocks {
+						for _, in := range b.Instrs {
+							mc, ok := in.(*ssa.MakeClosure)
+							if !ok || mc.Fn != ssa.Value(f) {
+								continue
+							}
+							for i, fv := range f.FreeVars {
+								if fv == x && i < len(mc.Bindings) {
+									if bp, ok := stripConv(mc.Bindings[i]).(*ssa.Parameter); ok && typeIs(bp.Type(), "datatype/neuronjson", "ListQueryJSON") {
+										good = true
+									}
+									// captured by reference: the cell holds the parameter and nothing else is stored into it
+									if cell, ok := mc.Bindings[i].(*ssa.Alloc); ok {
+										stores, fromParam := 0, 0
+										for _, ref := range *cell.Referrers() {
+											if st, ok := ref.(*ssa.Store); ok && st.Addr == ssa.Value(cell) {
+												stores++
+												if bp, ok := stripConv(st.Val).(*ssa.Parameter); ok && typeIs(bp.Type(), "datatype/neuronjson", "ListQueryJSON") {
+													fromParam++
+												}
+											}
+										}
+										if stores == 1 && fromParam == 1 {
+											good = true
+										}
+									}
+								}
+							}
+						}
+					}
+				}
+			}
+			r.check(good, fmt.Sprintf("%s:queryMatch#%d:the-query-as-given", fname(f), k), "the matcher gets the query list the function was given",
+				"the matcher is handed a list computed from the query instead of the query itself: one of the two paths (in-memory head, store) answers a narrowed or altered query — a condition such as exists/0 on a field no annotation holds matches everything in the store and nothing in memory", w.pos(c.Pos()))
+		}
+	}
+	r.check(n >= 2, "neuronjson:queryMatch-calls", fmt.Sprintf("%d", n), "fewer calls than expected: rule needs review", "-")
+}
+
+func ruleScanKeepsEveryVersion(r *Run) {
+	w := r.W
+	n := 0
+	for _, f := range w.RepoFuncs {
+		if !strings.HasPrefix(relPkg(pkgPathOf(f)), "storage/") || len(f.Blocks) == 0 || isTestFunc(w, f) {
+			continue
+		}
+		// a scan that groups versions: it appends freshly allocated *storage.KeyValue to a slice and hands
+		// such slices to the resolver (a function that calls VersionedKeyValue)
+		root := f
+		for root.Parent() != nil {
+			root = root.Parent()
+		}
+		if !strings.Contains(strings.ToLower(root.Name()), "versioned") {
+			continue
+		}
+		k := 0
+		for _, b := range f.Blocks {
+			for _, in := range b.Instrs {
+				al, ok := in.(*ssa.Alloc)
+				if !ok || !al.Heap || !typeIs(al.Type().(*types.Pointer).Elem(), "storage", "KeyValue") {
+					continue
+				}
+				h, set, _ := innermostLoop(f, b)
+				if set == nil {
+					continue
+				}
+				// is it appended somewhere in the loop?
+				var appends []ssa.Instruction
+				for blk := range set {
+					for _, x := range blk.Instrs {
+						c, ok := x.(*ssa.Call)
+						if !ok {
+							continue
+						}
+						bi, ok := c.Call.Value.(*ssa.Builtin)
+						if !ok || bi.Name() != "append" || len(c.Call.Args) != 2 {
+							continue
+						}
+						for d := range dataDeps(c.Call.Args[1]) {
+							if d == ssa.Value(al) {
+								appends = append(appends, c)
+							}
+						}
+						if sl, ok := c.Call.Args[1].(*ssa.Slice); ok {
+							if arr, ok := sl.X.(*ssa.Alloc); ok {
+								for _, ref := range *arr.Referrers() {
+									if ia, ok := ref.(*ssa.IndexAddr); ok {
+										for _, ref2 := range *ia.Referrers() {
+											if st, ok := ref2.(*ssa.Store); ok && st.Val == ssa.Value(al) {
+												appends = append(appends, c)
+											}
+										}
+									}
+								}
+							}
+						}
+					}
+				}
+				if len(appends) == 0 {
+					continue
+				}
+				n++
+				k++
+				isAppend := func(x ssa.Instruction) bool {
+					for _, a := range appends {
+						if a == x {
+							return true
+						}
+					}
+					return false
+				}
+				inLoop := func(blk *ssa.BasicBlock, i int) bool { return set[blk.Succs[i]] }
+				var head ssa.Instruction
+				for _, x := range h.Instrs {
+					if _, isPhi := x.(*ssa.Phi); !isPhi {
+						head = x
+						break
+					}
+				}
+				p := findPath(f, al, isAppend, func(x ssa.Instruction) bool { return x == head }, inLoop)
+				r.check(p == nil, fmt.Sprintf("%s:scan#%d:every-version-joins-its-group", fname(f), k), "a key read from the iterator is appended to the group before the next key is read",
+					"the scan can go on to the next key without appending the one just read to the pending group: the resolver decides from an incomplete set of versions — with a deletion left out, the listing returns a key the point read reports deleted", w.pos(al.Pos()), w.renderPath(p)...)
+			}
+		}
+	}
+	r.check(n >= 1, "storage:versioned-scans", fmt.Sprintf("%d", n), "no versioned scan found: rule needs review", "-")
+}
+
+// ---------------------------------------------------------------------------------------------
+// R11.30 / R20.51 — one acquisition order per pair of lock classes
+
+func init() {
+	reg := func(id, prop string) {
+		register(ruleDef{ID: id, Prop: prop, Tier: "quick", Floor: 5,
+			Title: "one acquisition order per pair of mutexes: over the datastore, server, storage and datatype packages, if some function acquires mutex class B (owner type and field, or package-level mutex) while it holds class A — directly or through calls followed three levels deep — then no function acquires A while it holds B (two requests taking the pair in opposite orders block each other for ever, and with them every later request that needs either)",
+			Fn:    ruleLockOrderPairs})
+	}
+	reg("R11.30", "C11")
+	reg("R20.51", "C20")
+}
+
+func lockClassOf(in ssa.Instruction, op lockOp) string {
+	c, ok := in.(*ssa.Call)
+	if !ok || len(c.Call.Args) == 0 {
+		return ""
+	}
+	a := c.Call.Args[0]
+	if ia, ok := a.(*ssa.IndexAddr); ok {
+		a = ia.X
+		if g, ok := a.(*ssa.Global); ok {
+			return relPkg(g.Pkg.Pkg.Path()) + "." + g.Name() + "[]"
+		}
+	}
+	switch x := a.(type) {
+	case *ssa.FieldAddr:
+		if nm := namedOf(x.X.Type()); nm != nil && nm.Obj().Pkg() != nil {
+			return relPkg(nm.Obj().Pkg().Path()) + "." + nm.Obj().Name() + "." + op.name
+		}
+	case *ssa.Global:
+		return relPkg(x.Pkg.Pkg.Path()) + "." + x.Name()
+	case *ssa.UnOp:
+		if fa, ok := x.X.(*ssa.FieldAddr); ok {
+			if nm := namedOf(fa.X.Type()); nm != nil && nm.Obj().Pkg() != nil {
+				return relPkg(nm.Obj().Pkg().Path()) + "." + nm.Obj().Name() + "." + op.name
+			}
+		}
+	}
+	return ""
+}
+
+func ruleLockOrderPairs(r *Run) {
+	w := r.W
+	inScope := func(f *ssa.Function) bool {
+		if len(f.Blocks) == 0 || isTestFunc(w, f) {
+			return false
+		}
+		p := relPkg(pkgPathOf(f))
+		return strings.HasPrefix(p, "datatype/") || p == "datastore" || p == "server" || strings.HasPrefix(p, "storage")
+	}
+	// classes a function acquires, transitively (depth-limited)
+	direct := map[*ssa.Function]map[string]bool{}
+	for _, f := range w.RepoFuncs {
+		if !inScope(f) {
+			continue
+		}
+		for _, b := range f.Blocks {
+			for _, in := range b.Instrs {
+				if op, ok := asLockOp(in); ok && op.lock {
+					if cl := lockClassOf(in, op); cl != "" {
+						if direct[f] == nil {
+							direct[f] = map[string]bool{}
+						}
+						direct[f][cl] = true
+					}
+				}
+			}
+		}
+	}
+	memo := map[*ssa.Function]map[string]bool{}
+	var acquired func(f *ssa.Function, depth int) map[string]bool
+	acquired = func(f *ssa.Function, depth int) map[string]bool {
+		if m, ok := memo[f]; ok && depth == 0 {
+			return m
+		}
+		out := map[string]bool{}
+		for cl := range direct[f] {
+			out[cl] = true
+		}
+		if depth < 3 && inScope(f) {
+			for _, c := range calls(f) {
+				if _, isGo := c.(*ssa.Go); isGo {
+					continue
+				}
+				if callee := staticCallee(c); callee != nil && callee != f && inScope(callee) {
+					for cl := range acquired(callee, depth+1) {
+						out[cl] = true
+					}
+				}
+			}
+		}
+		if depth == 0 {
+			memo[f] = out
+		}
+		return out
+	}
+	type edge struct{ a, b string }
+	where := map[edge]string{}
+	for _, f := range w.RepoFuncs {
+		if !inScope(f) {
+			continue
+		}
+		// lock ops of f by class
+		type acq struct {
+			in ssa.Instruction
+			op lockOp
+			cl string
+		}
+		var acqs []acq
+		for _, b := range f.Blocks {
+			for _, in := range b.Instrs {
+				if op, ok := asLockOp(in); ok && op.lock {
+					if cl := lockClassOf(in, op); cl != "" {
+						acqs = append(acqs, acq{in, op, cl})
+					}
+				}
+			}
+		}
+		if len(acqs) == 0 {
+			continue
+		}
+		heldClasses := func(at ssa.Instruction) []string {
+			var out []string
+			seen := map[string]bool{}
+			for _, a := range acqs {
+				if seen[a.op.key] {
+					continue
+				}
+				seen[a.op.key] = true
+				if h, _ := heldKeyAt(f, at, a.op.key); h {
+					out = append(out, a.cl)
+				}
+			}
+			return out
+		}
+		for _, a := range acqs {
+			for _, h := range heldClasses(a.in) {
+				if h != a.cl {
+					e := edge{h, a.cl}
+					if _, ok := where[e]; !ok {
+						where[e] = fname(f) + " at " + w.pos(a.in.Pos())
+					}
+				}
+			}
+		}
+		for _, c := range calls(f) {
+			if _, isGo := c.(*ssa.Go); isGo {
+				continue
+			}
+			if _, isDefer := c.(*ssa.Defer); isDefer {
+				continue
+			}
+			callee := staticCallee(c)
+			if callee == nil || !inScope(callee) {
+				continue
+			}
+			inner := acquired(callee, 1)
+			if len(inner) == 0 {
+				continue
+			}
+			for _, h := range heldClasses(c) {
+				for cl := range inner {
+					if cl != h {
+						e := edge{h, cl}
+						if _, ok := where[e]; !ok {
+							where[e] = fname(f) + " (calling " + callee.Name() + ") at " + w.pos(c.Pos())
+						}
+					}
+				}
+			}
+		}
+	}
+	var edges []edge
+	for e := range where {
+		edges = append(edges, e)
+	}
+	sort.Slice(edges, func(i, j int) bool { return edges[i].a+edges[i].b < edges[j].a+edges[j].b })
+	n := 0
+	for _, e := range edges {
+		if e.a > e.b {
+			continue
+		}
+		rev, ok := where[edge{e.b, e.a}]
+		if !ok {
+			continue
+		}
+		n++
+		construct := "pair:" + e.a + "<>" + e.b
+		if reason, exc := r.exceptionFor("R11.30", construct); exc {
+			r.check(true, construct, "exception: "+reason, "", "-")
+			continue
+		}
+		r.violation(construct, "the two mutexes are acquired in both orders: "+e.a+" then "+e.b+" in "+where[e]+"; "+e.b+" then "+e.a+" in "+rev+" — two requests on these paths at once can block each other for ever", "-")
+	}
+	r.check(len(edges) >= 5, "repo:nested-acquisition-orders", fmt.Sprintf("%d ordered pairs of lock classes observed, %d in both orders", len(edges), n), "too few nested acquisitions: rule needs review", "-")
+	for _, e := range edges {
+		r.check(true, "order:"+e.a+"->"+e.b, where[e], "", "-")
+	}
+}
+
+// ---------------------------------------------------------------------------------------------
+// Round f, third batch (C03, C04, C08)
+
+func init() {
+	reg := func(id, prop string) {
+		register(ruleDef{ID: id, Prop: prop, Tier: "quick", Floor: 1,
+			Title: "a record that ends exactly at the end of the file is complete: in the file log's tail repair (the function that truncates a log), the end of a record — computed from its decoded length — is compared with the file size strictly (end > size means torn); a non-strict comparison cuts the last complete record at the next open",
+			Fn:    ruleTornTailStrict})
+	}
+	reg("R4.15", "C04")
+	reg("R3.25", "C03")
+	register(ruleDef{ID: "R3.26", Prop: "C03", Tier: "quick", Floor: 1,
+		Title: "a mapping is handed out only after its log was replayed: labelmap's initMapping (which creates the in-memory mapping without reading the log) is called by getMapping alone; every other reader goes through getMapping, which replays the logs of the version and its ancestors first",
+		Fn:    ruleInitMappingOnlyFromGetMapping})
+	reg2 := func(id, prop string) {
+		register(ruleDef{ID: id, Prop: prop, Tier: "quick", Floor: 2,
+			Title: "the log says what memory says: in labelmap functions that set the in-memory mapping of a supervoxel (setMapping) and log a MappingOp naming that supervoxel in a set built there, the logged Mapped label is the very value given to setMapping — replay after a restart rebuilds the same mapping",
+			Fn:    ruleLoggedMappingEqualsSet})
+	}
+	reg2("R8.18", "C08")
+	reg2("R3.27", "C03")
+	register(ruleDef{ID: "R8.19", Prop: "C08", Tier: "quick", Floor: 1,
+		Title: "no supervoxel stays in an index with zero voxels: in labels.Index.ModifyBlocks a count computed from a delta is stored into SVCount.Counts only behind the edge on which it is not zero (the zero case deletes the entry) — a ghost entry keeps the supervoxel in the body's supervoxel set",
+		Fn:    ruleNoZeroCountStored})
+	register(ruleDef{ID: "R8.20", Prop: "C08", Tier: "quick", Floor: 1,
+		Title: "a merge removes the merged bodies' indices only after the target's index took them: in labelmap MergeLabels every DeleteLabelIndex lies behind the no-error edge of addToLabelIndex, the last step that can refuse the merge",
+		Fn:    ruleMergeDeletesAfterAdd})
+}
+
+func ruleTornTailStrict(r *Run) {
+	w := r.W
+	n := 0
+	for _, f := range w.RepoFuncs {
+		if relPkg(pkgPathOf(f)) != "storage/filelog" || len(f.Blocks) == 0 || isTestFunc(w, f) {
+			continue
+		}
+		truncates := false
+		for _, c := range calls(f) {
+			if callee := staticCallee(c); callee != nil && callee.Name() == "Truncate" && callee.Pkg != nil && callee.Pkg.Pkg.Path() == "os" {
+				truncates = true
+			}
+		}
+		if !truncates {
+			continue
+		}
+		isSize := func(v ssa.Value) bool {
+			for d := range dataDeps(v) {
+				if c, ok := d.(*ssa.Call); ok && c.Call.IsInvoke() && c.Call.Method.Name() == "Size" {
+					return true
+				}
+			}
+			return false
+		}
+		isDecodedLen := func(v ssa.Value) bool {
+			for d := range dataDeps(v) {
+				if c, ok := d.(*ssa.Call); ok {
+					if c.Call.IsInvoke() && strings.HasPrefix(c.Call.Method.Name(), "Uint") {
+						return true
+					}
+					if callee := c.Call.StaticCallee(); callee != nil && strings.HasPrefix(callee.Name(), "Uint") {
+						return true
+					}
+				}
+			}
+			return false
+		}
+		k := 0
+		for _, b := range f.Blocks {
+			for _, in := range b.Instrs {
+				bo, ok := in.(*ssa.BinOp)
+				if !ok {
+					continue
+				}
+				switch bo.Op {
+				case token.GTR, token.GEQ, token.LSS, token.LEQ:
+				default:
+					continue
+				}
+				// inside the record loop (the comparison after it asks another question: is anything left?)
+				if _, set, _ := innermostLoop(f, b); set == nil {
+					continue
+				}
+				var strict bool
+				switch {
+				case isDecodedLen(bo.X) && isSize(bo.Y) && !isDecodedLen(bo.Y):
+					strict = bo.Op == token.GTR || bo.Op == token.LEQ // end > size (torn) or end <= size (complete)
+				case isSize(bo.X) && isDecodedLen(bo.Y) && !isDecodedLen(bo.X):
+					strict = bo.Op == token.LSS || bo.Op == token.GEQ
+				default:
+					continue
+				}
+				n++
+				k++
+				r.check(strict, fmt.Sprintf("%s:record-end-vs-size#%d", fname(f), k), "a record is torn only when it ends beyond the file size",
+					"the end of a record is compared with the file size so that a record ending exactly at the end of the file counts as torn: reopening a cleanly closed log for append cuts its last complete record — the mutation is gone after the next restart", w.pos(bo.Pos()))
+			}
+		}
+	}
+	r.check(n >= 1, "filelog:record-end-comparisons", fmt.Sprintf("%d", n), "no comparison of a record end with the file size found: rule needs review", "-")
+}
+
+func ruleInitMappingOnlyFromGetMapping(r *Run) {
+	w := r.W
+	target := w.fn("datatype/labelmap", "initMapping")
+	if target == nil {
+		r.undecided("labelmap.initMapping", "anchor not found")
+		return
+	}
+	n := 0
+	for _, c := range callSitesOf(w)[target] {
+		p := c.Parent()
+		if isTestFunc(w, p) {
+			continue
+		}
+		n++
+		r.check(p.Name() == "getMapping", fmt.Sprintf("%s:calls-initMapping", fname(p)), "called by getMapping",
+			"initMapping is called outside getMapping: the mapping is handed out (and the version marked as loaded) without its mutation log having been replayed — after a restart every read and mutation at that version sees the mappings of the root only", w.pos(c.Pos()))
+	}
+	r.check(n >= 1, "labelmap:initMapping-call-sites", fmt.Sprintf("%d", n), "no call site found: rule needs review", "-")
+}
+
+func ruleLoggedMappingEqualsSet(r *Run) {
+	w := r.W
+	n := 0
+	for _, f := range w.RepoFuncs {
+		if relPkg(pkgPathOf(f)) != "datatype/labelmap" || len(f.Blocks) == 0 || isTestFunc(w, f) {
+			continue
+		}
+		// setMapping(v, key, label)
+		type setT struct{ key, label ssa.Value }
+		var sets []setT
+		for _, c := range calls(f) {
+			if callee := staticCallee(c); callee != nil && callee.Name() == "setMapping" {
+				a := c.Common().Args
+				if len(a) >= 4 {
+					sets = append(sets, setT{a[len(a)-2], a[len(a)-1]})
+				}
+			}
+		}
+		if len(sets) == 0 {
+			continue
+		}
+		k := 0
+		// MappingOp literals: stores into the Mapped field of a local MappingOp, with the set stored into Original
+		for _, b := range f.Blocks {
+			for _, in := range b.Instrs {
+				st, ok := in.(*ssa.Store)
+				if !ok {
+					continue
+				}
+				fa, ok := st.Addr.(*ssa.FieldAddr)
+				if !ok || !typeIs(fa.X.Type(), "datatype/common/labels", "MappingOp") {
+					continue
+				}
+				if nm, _, _ := fieldName(fa); nm != "Mapped" {
+					continue
+				}
+				mapped := st.Val
+				// the Original stored into the same literal
+				var keys []ssa.Value
+				for _, ref := range *fa.X.Referrers() {
+					fa2, ok := ref.(*ssa.FieldAddr)
+					if !ok {
+						continue
+					}
+					if nm, _, _ := fieldName(fa2); nm != "Original" {
+						continue
+					}
+					for _, ref2 := range *fa2.Referrers() {
+						st2, ok := ref2.(*ssa.Store)
+						if !ok || st2.Addr != ssa.Value(fa2) {
+							continue
+						}
+						// a variable assigned several literals is built in place: the Original that belongs to
+						// this Mapped is the one stored next to it (same block, no other Mapped store between)
+						if st2.Block() != st.Block() || !adjacentFieldStores(st, st2, "Mapped") {
+							continue
+						}
+						for _, rv := range roots(st2.Val, f) {
+							mk, ok := rv.V.(*ssa.MakeMap)
+							if !ok {
+								continue
+							}
+							for _, ref3 := range *mk.Referrers() {
+								if mu, ok := ref3.(*ssa.MapUpdate); ok && mu.Map == ssa.Value(mk) {
+									keys = append(keys, mu.Key)
+								}
+							}
+						}
+					}
+				}
+				for _, key := range keys {
+					for _, s := range sets {
+						sameKey := stripConv(s.key) == stripConv(key)
+						if n1, ok1 := fieldSel(s.key); ok1 {
+							if n2, ok2 := fieldSel(key); ok2 && n1 == n2 {
+								sameKey = true
+							}
+						}
+						if !sameKey {
+							continue
+						}
+						n++
+						k++
+						same := stripConv(s.label) == stripConv(mapped) || sameRoots(s.label, mapped, f)
+						r.check(same, fmt.Sprintf("%s:logged-mapping#%d", fname(f), k), "the logged label is the label set in memory",
+							"a supervoxel is mapped to one label in memory and logged with another: the mapping is right until the next restart and wrong after it (replay follows the log)", w.pos(st.Pos()))
+					}
+				}
+			}
+		}
+	}
+	r.check(n >= 2, "labelmap:logged-mappings-with-literal-sets", fmt.Sprintf("%d", n), "fewer than expected: rule needs review", "-")
+}
+
+func ruleNoZeroCountStored(r *Run) {
+	w := r.W
+	f := w.method("datatype/common/labels", "Index", "ModifyBlocks")
+	if f == nil {
+		r.undecided("labels.Index.ModifyBlocks", "anchor not found")
+		return
+	}
+	n := 0
+	for _, b := range f.Blocks {
+		for _, in := range b.Instrs {
+			mu, ok := in.(*ssa.MapUpdate)
+			if !ok || !isFieldLoad(mu.Map, "SVCount", "Counts") {
+				continue
+			}
+			// a count computed by arithmetic (old + delta)
+			computed := false
+			for d := range dataDeps(mu.Value) {
+				if bo, ok := d.(*ssa.BinOp); ok && (bo.Op == token.ADD || bo.Op == token.SUB) {
+					computed = true
+				}
+			}
+			if !computed {
+				continue
+			}
+			n++
+			guarded := false
+			for _, b2 := range f.Blocks {
+				ifi, isIf := b2.Instrs[len(b2.Instrs)-1].(*ssa.If)
+				if !isIf {
+					continue
+				}
+				bo, isBo := ifi.Cond.(*ssa.BinOp)
+				if !isBo || stripConv(bo.X) != stripConv(mu.Value) {
+					continue
+				}
+				if z, ok := constInt(bo.Y); !ok || z != 0 {
+					continue
+				}
+				if bo.Op == token.EQL && guardedByEdge(ifi, 1, mu) || bo.Op == token.NEQ && guardedByEdge(ifi, 0, mu) || bo.Op == token.GTR && guardedByEdge(ifi, 0, mu) {
+					guarded = true
+				}
+			}
+			r.check(guarded, fmt.Sprintf("ModifyBlocks:computed-count-store#%d", n), "stored only where it is not zero",
+				"a count computed from a delta is stored without the zero case having been taken out: a supervoxel whose last voxel in the block was overwritten stays in the body's index with count 0 — it is still listed among the body's supervoxels and can be cleaved into a body of no voxels", w.pos(mu.Pos()))
+		}
+	}
+	r.check(n >= 1, "ModifyBlocks:computed-count-stores", fmt.Sprintf("%d", n), "no computed count store found: rule needs review", w.fpos(f))
+}
+
+func ruleMergeDeletesAfterAdd(r *Run) {
+	w := r.W
+	f := w.method("datatype/labelmap", "Data", "MergeLabels")
+	if f == nil {
+		r.undecided("labelmap.Data.MergeLabels", "anchor not found")
+		return
+	}
+	var add ssa.Instruction
+	for _, c := range calls(f) {
+		if callee := staticCallee(c); callee != nil && callee.Name() == "addToLabelIndex" {
+			add = c
+		}
+	}
+	if !r.check(add != nil, "MergeLabels:addToLabelIndex", "found", "the call of addToLabelIndex was not found: rule needs review", w.fpos(f)) {
+		return
+	}
+	ifi, _ := add.Block().Instrs[len(add.Block().Instrs)-1].(*ssa.If)
+	n := 0
+	for _, c := range calls(f) {
+		callee := staticCallee(c)
+		if callee == nil || (callee.Name() != "DeleteLabelIndex" && callee.Name() != "deleteCachedLabelIndex" && callee.Name() != "deleteLabelIndex") {
+			continue
+		}
+		n++
+		ok := false
+		if ifi != nil {
+			if bo, isBo := ifi.Cond.(*ssa.BinOp); isBo && isNilConst(bo.Y) {
+				succ := 1
+				if bo.Op == token.EQL {
+					succ = 0
+				}
+				ok = guardedByEdge(ifi, succ, c)
+			}
+		}
+		r.check(ok, fmt.Sprintf("MergeLabels:delete-index#%d:after-target-took-them", n), "behind the no-error edge of addToLabelIndex",
+			"a merged body's index is deleted before the target's index has taken its blocks: when that step refuses the merge (the target among the merged labels, a supervoxel already in the target) the request answers 400 and the merged bodies' indices are gone while their voxels are still there", w.pos(c.Pos()))
+	}
+	r.check(n >= 1, "MergeLabels:index-deletions", fmt.Sprintf("%d", n), "no index deletion found: rule needs review", w.fpos(f))
+}
+
+
+// adjacentFieldStores: a and b are in one block and no store into a field named `field` lies between them.
+func adjacentFieldStores(a, b *ssa.Store, field string) bool {
+	blk := a.Block()
+	ia, ib := -1, -1
+	for i, in := range blk.Instrs {
+		if in == ssa.Instruction(a) {
+			ia = i
+		}
+		if in == ssa.Instruction(b) {
+			ib = i
+		}
+	}
+	if ia < 0 || ib < 0 {
+		return false
+	}
+	lo, hi := ia, ib
+	if lo > hi {
+		lo, hi = hi, lo
+	}
+	for i := lo + 1; i < hi; i++ {
+		if st, ok := blk.Instrs[i].(*ssa.Store); ok {
+			if fa, ok := st.Addr.(*ssa.FieldAddr); ok {
+				if nm, _, _ := fieldName(fa); nm == field {
+					return false
+				}
+			}
+		}
+	}
+	return true
+}
+
+func init() {
+	register(ruleDef{ID: "R3.28", Prop: "C03", Tier: "quick", Floor: 2,
+		Title: "the head's id list is in the same order after a restart as before it (shared with R16.7): the in-memory database filled from the store by plain appends is sorted numerically before it is used, and searched with a monotone predicate — the store returns decimal keys in string order",
+		Fn:    ruleR16_7})
 }
